@@ -197,6 +197,7 @@ def m_next(ctx):
     if not isinstance(it, Iter):
         return ctx.top_ret()
     item, may_end = iter_item(ctx, it, "nx")
+    ctx.I.iter_sites[(ctx.frame, ctx.bi)] = bool(it.finite) and it.kind != "opaque"
     for h in ctx.I.hooks:
         h("iter_next", interp=ctx.I, ctx=ctx, it=it)
     if item is None:
@@ -555,12 +556,32 @@ def m_with_capacity(ctx):
     et = vec_elem_ty(ctx)
     esz = I.elem_size(et) if et is not None else 1
     ok = n is not None and D.hi(S.ivof(n)) * esz <= (1 << (I.ptr_bits - 1)) - 1
-    paid = False
-    for h in I.hooks:
-        r = h("alloc", interp=I, ctx=ctx, count=n, elem_size=esz)
-        if r:
-            paid = True
-    ctx.pre("capacity * size_of::<T>() <= isize::MAX", ok or paid, None if (ok or paid) else {"count": D.fmt(S.ivof(n)) if n is not None else "?", "elem_size": esz})
+    # ALLOC (DESIGN §4.4): the requested count must already be paid for in input bytes:
+    # some fact  k*count - len(I) <= c  with k >= 1 and c <= 0, I a byte sequence
+    paid = None
+    if n is not None:
+        if D.hi(S.ivof(n)) <= 4096:
+            paid = "constant bound %d" % D.hi(S.ivof(n))
+        else:
+            tn = S.term(n)
+            for f in S.facts:
+                if len(f.t) != 2 or f.c > 0:
+                    continue
+                ks = [(x, k) for x, k in f.t.items()]
+                for (x, k), (y, ky) in (ks, ks[::-1]):
+                    if k >= 1 and ky == -1 and I.st.range(y) == I.len_rng() and tn.t == {x: 1} and tn.c == 0:
+                        paid = "fact %r <= 0 (count * %d <= length of an input slice)" % (f, k)
+                if paid:
+                    break
+            if paid is None and len(tn.t) == 1 and tn.c == 0:
+                (x, kx), = tn.t.items()
+                for y, l in S.lin.items():
+                    if I.st.range(y) == I.len_rng() and l.c == 0 and len(l.t) == 1 and x in l.t and l.t[x] >= kx >= 1:
+                        paid = "s%d = %r is the length of a slice already read (count * %d bytes)" % (y, l, l.t[x] // kx)
+                        break
+    detail = I.site_ordinal(ctx.inst, ctx.bi, "CALL:" + ctx.r["def"])
+    I.oblige("ALLOC", ctx.inst, ctx.bi, ctx.r["def"] + detail, paid is not None, S, ctx.t.get("span"), None if paid else {"count": D.fmt(S.ivof(n)) if n is not None else "?", "note": "capacity not bounded by bytes already read"})
+    ctx.pre("capacity * size_of::<T>() <= isize::MAX", ok or paid is not None, None if (ok or paid) else {"count": D.fmt(S.ivof(n)) if n is not None else "?", "elem_size": esz})
     ln = I.const_sym(0, I.len_rng(), S)
     return Seq("vec", ln, None, (), None, frozenset())
 
